@@ -326,30 +326,33 @@ func handleLMove(params internal.HandlerFuncParams) ([]byte, error) {
 		return nil, errors.New("both source and destination must be lists")
 	}
 
+	// Take the element off the requested end of the source list.
+	var element string
+	var newSource []string
 	switch whereFrom {
 	case "left":
-		err = params.SetValues(params.Context, map[string]interface{}{
-			source: append([]string{}, sourceList[1:]...),
-			destination: func() []string {
-				if whereTo == "left" {
-					return append(sourceList[0:1], destinationList...)
-				}
-				// whereTo == "right"
-				return append(destinationList, sourceList[0])
-			}(),
-		})
+		element = sourceList[0]
+		newSource = append([]string{}, sourceList[1:]...)
 	case "right":
-		err = params.SetValues(params.Context, map[string]interface{}{
-			source: append([]string{}, sourceList[:len(sourceList)-1]...),
-			destination: func() []string {
-				if whereTo == "left" {
-					return append(sourceList[len(sourceList)-1:], destinationList...)
-				}
-				// whereTo == "right"
-				return append(destinationList, sourceList[len(sourceList)-1])
-			}(),
-		})
+		element = sourceList[len(sourceList)-1]
+		newSource = append([]string{}, sourceList[:len(sourceList)-1]...)
 	}
+
+	// When source and destination are the same key, the element re-enters the list it has just left.
+	if source == destination {
+		destinationList = newSource
+	}
+
+	var newDestination []string
+	if whereTo == "left" {
+		newDestination = append([]string{element}, destinationList...)
+	} else {
+		newDestination = append(append([]string{}, destinationList...), element)
+	}
+
+	entries := map[string]interface{}{source: newSource}
+	entries[destination] = newDestination
+	err = params.SetValues(params.Context, entries)
 
 	if err != nil {
 		return nil, err
